@@ -138,6 +138,11 @@ def check(ctx: Ctx) -> None:
             ob.violation(fsv, fsv.node, "serve(io, id) does not run WorkerGateway.serve()")
         ob.note("the primary loop leaves on the shutdown mailbox value / _shuttingdown: decided by C09.d and C09.j")
 
+    with ctx.obligation("C11.g", "primary-loop-leaves") as ob:
+        # serve() returns only if the primary loop leaves after trigger_shutdown(): the same obligation as C09.d
+        from .C09 import check_primary_loop
+        check_primary_loop(repo, ob)
+
     with ctx.obligation("C11.d", "threads-daemonic") as ob:
         st = repo.func(f"{GB}.ThreadExecModel.start")
         cs = [unparse(c.func) for c in repo.calls_in(st)]
